@@ -130,6 +130,20 @@ where
             }));
         }
 
+        let len = data.bytes().len();
+        if !last && next_offset % FlexVec::<T, L>::ALIGN != 0 {
+            return Some(Err(Error {
+                kind: ErrorKind::BadAlign,
+                pos: self.pos,
+            }));
+        }
+        if (!last && next_offset > len) || payload_offset > len {
+            return Some(Err(Error {
+                kind: ErrorKind::InsufficientSize,
+                pos: self.pos,
+            }));
+        }
+
         let data = if !last {
             let (data, next_data) = data.split(next_offset);
             self.data = Some(next_data);
